@@ -79,6 +79,11 @@ def _work(seeds):
                     good = bool(DECDIGITS.match(v)) and len(v.lstrip("0")) <= 8 and 1 <= int(v.lstrip("0") or "0") <= 0x10FFFF
                 if not good:
                     fail = "%r was recognised as an entity although it is not a valid one (it must stay text)" % str(e)
+                else:
+                    # ... and the character it denotes, by the same independent definition (the HTML 4 table the tokenizers validate against)
+                    want = chr(html.entities.name2codepoint[v]) if e.named else chr(int(v.lstrip("0") or "0", 16 if e.hexadecimal else 10))
+                    if ch != want:
+                        fail = "entity %s normalises to %r (U+%04X); it denotes %r (U+%04X)" % (e, ch, ord(ch[:1] or "\0"), want, ord(want))
         except Exception as ex:  # noqa: BLE001
             fail = "strip_code / normalize raised %r" % (ex,)
         out.append((text, enc, treeprops.impl_record(code) if fail is None else "failed", fail, len(ents), len(code.filter()) > len(code.nodes)))
